@@ -548,7 +548,8 @@ class Engine:
                               'where': _where(e)})
 
 
-REPO_PREFIX = '/repo/'
+import os as _os2
+REPO_PREFIX = _os2.environ.get('VERIF_REPO', '/repo').rstrip('/') + '/'
 
 
 def _raised_in_repo(e):
